@@ -7,6 +7,7 @@
   real DNS and TCP faults are library and OS behaviour, represented by the two outcomes accept / refuse.
 -/
 import Hpfeeds.Lemmas.AioClient
+import Hpfeeds.Lemmas.BlkClient
 namespace Hpfeeds.C13
 open Hpfeeds Extracted
 
@@ -193,4 +194,94 @@ example : (run twCfg [.start, .accept, .close, .lost, .advance 5000, .start]).2 
     [.attempt, .closeT 1, .closeDone] := by decide +kernel
 
 end Aio
+/-! ## blocking Client (reconnect=True) -/
+namespace Client
+open Hpfeeds.BlkClient
+
+/-- (iii) Client.run returns after stop() once its current read completes.  In ANY state in which run() is
+    blocked in recv() with `stopped` set — whenever and from wherever stop() was called — whatever the read
+    returns: -/
+theorem run_returns (cfg : Cfg) (s : State) (hp : s.pc = .runRecv) (hs : s.stopped = true) :
+    -- the connection ended: run() returns at once, no new connection attempt
+    step cfg s .eof = ({ s with connected := false, pc := .idle }, [.ret]) ∧
+    step cfg s .sockErr = ({ s with connected := false, pc := .idle }, [.ret]) ∧
+    -- the read timed out or returned data: the complete frames are dispatched, then run() returns without a
+    -- connection attempt — unless a reader raised (the exception escapes) or a callback is still inside its
+    -- own publish()
+    (∀ e, (e = .timeout ∨ ∃ b, e = .data b) →
+      ((step cfg s e).1.pc = .idle ∧ (step cfg s e).2.getLast? = some .ret ∧
+        (step cfg s e).1.attempts = s.attempts ∧ ∀ k, Out.attempt k ∉ (step cfg s e).2) ∨
+      (step cfg s e).1.pc = .crashed ∨ CbBlocked (step cfg s e).1.pc) := by
+  refine ⟨by simp [step, hp, afterInner, hs], by simp [step, hp, afterInner, hs], ?_⟩
+  intro e he
+  rcases he with rfl | ⟨b, rfl⟩
+  · have : step cfg s .timeout = afterFrames cfg (frameLoop cfg s) := by simp [step, hp]
+    rw [this]; exact afterFrames_stopped cfg s hs
+  · by_cases hb : b = []
+    · left
+      have : step cfg s (.data b) = ({ s with connected := false, pc := .idle }, [.ret]) := by
+        simp [step, hp, hb, afterInner, hs]
+      rw [this]; exact ⟨rfl, rfl, rfl, by simp⟩
+    · have : step cfg s (.data b) = afterFrames cfg (frameLoop cfg { s with ubuf := s.ubuf ++ b, fed := s.fed ++ b }) := by
+        simp [step, hp, hb]
+      rw [this]
+      exact afterFrames_stopped cfg { s with ubuf := s.ubuf ++ b, fed := s.fed ++ b } hs
+
+/-- `stopped` is never cleared (so a stop() made at any earlier moment is still seen) -/
+theorem stop_sticks (cfg : Cfg) (s : State) (e : Ev) (h : s.stopped = true) : (step cfg s e).1.stopped = true :=
+  (mo_step cfg s e).stopped h
+
+/-- (i) reconnection, phase by phase, each for ANY state of that phase.  A connection lost while run()
+    reads (not stopped): the old socket is closed and a new attempt is made at once.  An attempt refused on
+    the last address: sleep, then a new attempt (next address first, if there is one).  Accepted: do_auth
+    reads.  The OP_INFO: answered with its nonce (C11).  AUTH delivered: run() resubscribes the wanted set
+    (C11.run_subscribes) and reads again (C12). -/
+theorem reconnects (cfg : Cfg) (s : State) :
+    (s.pc = .runRecv → s.stopped = false →
+      step cfg s .eof = startConnect { s with connected := false } .run ∧
+      step cfg s .sockErr = startConnect { s with connected := false } .run ∧
+      (startConnect { s with connected := false } .run).1.pc = .connecting 0 .run ∧
+      (startConnect { s with connected := false } .run).2.getLast? = some (.attempt (s.nsock + 1))) ∧
+    (∀ i w, s.pc = .connecting i w →
+      (i + 1 < cfg.naddr → step cfg s .connRefused = newSocket s (i + 1) w) ∧
+      (¬ i + 1 < cfg.naddr → ∃ s', step cfg s .connRefused = retry s' w ∧ (retry s' w).1.pc = .connecting 0 w ∧
+        (retry s' w).2.head? = some .sleep ∧ (retry s' w).2.getLast? = some (.attempt (s.nsock + 1))) ∧
+      (step cfg s .connOk).1.pc = .authRecv w ∧ (step cfg s .connOk).1.ubuf = [] ∧
+      usable (step cfg s .connOk).1 = !s.sockClosed) ∧
+    (∀ rand, s.pc = .authSend .run rand → s.stopped = false →
+      step cfg s .sendOk =
+        ((runTop { s with sent := s.sent ++ [authFrame cfg rand], nonce := some rand, pc := .idle }).1,
+         .wrote s.nsock (authFrame cfg rand) ::
+           (runTop { s with sent := s.sent ++ [authFrame cfg rand], nonce := some rand, pc := .idle }).2)) := by
+  refine ⟨fun hp hs => ?_, fun i w hp => ?_, fun rand hp hs => ?_⟩
+  · refine ⟨by simp [step, hp, afterInner, hs], by simp [step, hp, afterInner, hs], by simp [startConnect, newSocket], ?_⟩
+    simp only [startConnect, newSocket, closeSock]
+    split <;> simp
+  · refine ⟨fun hi => by simp [step, hp, hi], fun hi => ?_, by simp [step, hp], by simp [step, hp], by simp [step, hp, usable]⟩
+    by_cases hc : s.connected = true
+    · refine ⟨{ s with ubuf := [], fed := [], popped := [] }, by simp [step, hp, hi, hc], by simp [retry, startConnect, newSocket], by simp [retry], ?_⟩
+      simp only [retry, startConnect, newSocket, closeSock]
+      split <;> simp
+    · refine ⟨s, by simp [step, hp, hi, hc], by simp [retry, startConnect, newSocket], by simp [retry], ?_⟩
+      simp only [retry, startConnect, newSocket, closeSock]
+      split <;> simp
+  · simp [step, hp, resume]
+
+/-! non-vacuity (kernel-evaluated): stop() from another thread while run() reads, then the read completes
+    with a timeout / with data whose callback publishes; and stop() followed by the loss of the connection:
+    run() returns, no attempt -/
+def exCfg : Cfg := { ident := [109], secret := [115], H := id,
+                     react := fun m => match m.2.2 with | 80 :: r => [.pub [114] r] | _ => [] }
+def exInfo : Bytes := [0,0,0,12,1,2,104,112,9,8,7,6]
+def exPub (x : UInt8) : Bytes := [0,0,0,10,3,1,97,1,99,x]
+example : (run exCfg [.new, .connOk, .data exInfo, .sendOk, .run, .stop, .eof]).2 =
+    [.attempt 1, .wrote 1 (authFrame exCfg [9,8,7,6]), .ret] := by decide +kernel
+example : (run exCfg [.new, .connOk, .data exInfo, .sendOk, .run, .stop, .data (exPub 80), .sendOk]).2 =
+    [.attempt 1, .wrote 1 (authFrame exCfg [9,8,7,6]), .msg ([97],[99],[80]), .wrote 1 (pubFrame exCfg [114] []), .ret] := by
+  decide +kernel
+example : (run exCfg [.new, .connOk, .data exInfo, .sendOk, .run, .eof, .connRefused, .connOk]).2 =
+    [.attempt 1, .wrote 1 (authFrame exCfg [9,8,7,6]), .closed 1, .attempt 2, .sleep, .closed 2, .attempt 3] := by
+  decide +kernel
+
+end Client
 end Hpfeeds.C13
